@@ -2,11 +2,11 @@ CONSTANTS
 Mode = "pool"
 MaxItems = 6
 Vals = {0, 1, 127, 128, 255, 256, 16383, 16384, 2097151, 2097152, 268435455, 268435456, 2147483647}
-Pads = {1, 128, 16384}
+Pads = {1, 128, 300}
 MaxPads = 1
 MaxLabels = 2
 PoolMax = 16384
 INIT Init
 NEXT Next
-INVARIANTS RoundTrip OffsetsIncrease LabelTable JumpTables LinesOK EmitRow
+INVARIANTS TheoremAndRow
 CHECK_DEADLOCK FALSE
